@@ -123,9 +123,13 @@ Definition notslash : re := RCls true [47].                 (* [^/]        *)
 Definition re_q : re := notslash.                           (* ?   ->  [^/]      *)
 Definition re_star : re := RStar notslash.                  (* *   ->  [^/]*     *)
 Definition re_plus : re := RPlus notslash.                  (*         [^/]+     *)
-Definition re_dstar : re := RStar RAny.                     (* **  ->  .*        *)
+(* Every compile site (NamedGlob._default_regex, Workflow.matches_any_glob,
+   Workflow._raise_if_glob_match) passes re.DOTALL, so `.` also matches a newline.  Tied to the
+   source by gen_compile_dotall (translator) in proofs/NglobTie.v. *)
+Definition dotall : bool := true.
+Definition re_dstar : re := RStar (RAny dotall).            (* **  ->  .*        *)
 Definition re_dstarslash : re :=                            (* **/ ->  (?:.*/|)  *)
-  RNcg (RAlt (RCat (RStar RAny) (RStr [47])) REps).
+  RNcg (RAlt (RCat (RStar (RAny dotall)) (RStr [47])) REps).
 Definition re_optslash : re := ROpt (RStr [47]).            (* /?  *)
 Definition re_cls (inner : str) : re :=
   if head_is 33 inner then RCls true (tl inner) else RCls false inner.
@@ -491,7 +495,7 @@ Definition ng_accepts (g : ng) (path : str) : bool := accepts (ng_re g) path.
 (* no named group inside *)
 Fixpoint nogrp (r : re) : bool :=
   match r with
-  | REps | RStr _ | RAny | RCls _ _ | RRef _ => true
+  | REps | RStr _ | RAny _ | RCls _ _ | RRef _ => true
   | RCat a b | RAlt a b => nogrp a && nogrp b
   | RStar a | RPlus a | ROpt a | RNcg a => nogrp a
   | RGrp _ _ => false
